@@ -167,9 +167,14 @@ impl<CS: BbsCiphersuite> BlindSignature<BBSplus<CS>> {
             Some(api_id)
         )?;
 
+        let signature = match self {
+            Self::BBSplus(inner) => inner,
+            _ => return Err(Error::UnespectedError),
+        };
+
         core_verify::<CS>(
             pk,
-            self.bbsPlusBlindSignature(),
+            signature,
             &message_scalars,
             generators,
             header,
